@@ -18,8 +18,10 @@ PARTS = [
 
 def consts(ctx):
     """Does PubKeyFromCertChain check the certificate's own signature explicitly?  (x509.Verify does
-    not, for a certificate that is itself in the root pool.)  Syntactic rule, then decided for real by
-    the correspondence: the harness presents certificates with a broken self-signature."""
+    not, for a certificate that is itself in the root pool: the defect this check found, repaired by
+    8beaf91.)  The regenerated constant must be true (theorem c01_tls_self_signature_checked); whether
+    the check works is decided by the correspondence: the harness presents certificates signed by
+    another key / altered after signing (fixed corpus cases) and they must be rejected."""
     src = open(os.path.join(REPO, "p2p/security/tls/crypto.go"), errors="replace").read()
     m = re.search(r"func PubKeyFromCertChain\(.*?\n}\n", src, re.S)
     body = m.group(0) if m else ""
@@ -226,7 +228,7 @@ if __name__ == "__main__":
         "the per-key-type dimension (Ed25519, ECDSA, Secp256k1, RSA) is uniform in the symbolic model and is covered by the correspondence runs",
         "a duplicate of handshake message 2 or 3 (Noise) or of the last handshake record of a direction (TLS) arrives after the receiver's last handshake read: it is not handshake data for that receiver (it is rejected by the transport phase, C02)",
         "TLS 1.3 (crypto/tls) is an ideal authenticated key exchange: a side completes only if the handshake records it received are the ones the peer sent, VerifyPeerCertificate accepted the peer's chain, and the peer proved possession of the leaf certificate's private key; legacy_record_version bytes and ChangeCipherSpec records are not authenticated by TLS 1.3 by design and are not edited",
-        "x509.ParseCertificate rejects a certificate carrying an extension twice; x509.Verify with the certificate itself as only root checks validity period and unhandled critical extensions but NOT the signature (confirmed by the harness; known finding)",
+        "x509.ParseCertificate rejects a certificate carrying an extension twice; x509.Verify with the certificate itself as only root checks validity period and unhandled critical extensions but NOT the signature; Certificate.CheckSignature verifies the signature over RawTBSCertificate with the certificate's own key (the repair of the defect this check found)",
         "TLS monitor ground truth: an endpoint can get only its own identity key certified for a certificate key it holds (unforgeability hypothesis presents_only_own of c01_tls_monitor_accepts_model_partial)",
     ]
     standard_flow(ctx, dict(
@@ -244,7 +246,7 @@ if __name__ == "__main__":
              "(D) a cooperating malicious endpoint (flynn/noise driven directly) presenting 5 claimed identity keys x 7 signatures (own key over prefix+static / another static / static only, "
              "recorded signatures of A and B, junk, empty) x 4 settings x 2 prologues x both roles. Observed per endpoint: error class or RemotePeer()/RemotePublicKey(). "
              "TLS: (2) the VerifyPeerCertificate callback of ConfigForPeer(exp) and PubKeyFromCertChain on certificates built with 29 presentations (extension public key / signature / certificate key replaced, "
-             "victim's extension replayed, stolen certificate, extension absent / twice / not ASN.1 / critical, other extensions, chain length 0/2, signed by another key, altered after signing, expired) x 4 expectations x identities; "
+             "victim's extension replayed, stolen certificate, extension absent / twice / not ASN.1 / critical, other extensions, chain length 0/2, signed by another key and altered after signing — the corpus of the repaired self-signature defect, now rejected —, expired) x 4 expectations x identities; "
              "(3) real tls.Transport pairs whose certificates were replaced by those presentations on either side x expected-peer settings, and a record-aware man in the middle: byte flips of every handshake record "
              "(content type, length, payload; all positions in thorough), truncate/extend/drop/duplicate/splice; after an undisturbed handshake one byte is exchanged each way (first Read on the client reports a server-side rejection). "
              "Swarm: (4) dialAddr, DialPeer and dialPeer-over-a-scripted-dial-sync on a real Swarm whose transport authenticates every peer 0..4 for every dialled peer 1..4. "
